@@ -19,7 +19,7 @@ import AtreeProofs.Props.C07World
 
   Hypotheses: the side conditions of `Props/C07World.lean` on the FINAL world (`LeafOk`, `SideAt`) — they make every pending slab encodable (`NoEncodeFailure` is DERIVED, not
   assumed) — and `DeepSteps D`: the deep account of every request ("a slab whose embedded child changed
-  was stored"), which is `Props/C10Deep.lean`.
+  was stored"), which is `Props/C10Deep.lean` (`C03WBF.world_bytes_commit_reopen` has no such hypothesis).
 -/
 namespace Atree.C03WB
 open Atree Atree.Codec Gen World St C10Persist WC C07W
